@@ -144,6 +144,11 @@ let run_case (entry : string) (text : byte list) : string =
   let unit_c b () = str b "()" in
   match entry with
   | "file" -> show file_c (parse_file text)
+  | "nesting" -> "NEST " ^ string_of_z (nesting text)
+  | "filemin" ->
+    (* File::parse with the least depth fuel C16_depth allows: nesting + 1 *)
+    let d = int_of_string (string_of_z (nesting text)) + 1 in
+    show file_c (p_file n (nat_of_int d) text)
   | "item" -> show item_c (p_item n n text)
   | "include" -> show include_c (p_include n text)
   | "cppinclude" -> show cpp_include_c (p_cpp_include n text)
